@@ -513,6 +513,33 @@ Inductive austep := AuGo (st : austate) | AuViol | AuAbort.
 (* a keyword name as the model's identifier: the bytes of the STRING / VOCAB token, base 256 behind a leading 1 (injective) *)
 Definition name_code (bs : list Z) : Z := fold_left (fun acc b => acc * 256 + b) bs 1.
 
+(* is this byte string text?  Exactly the byte strings Python's strict UTF-8 decoder accepts (RFC 3629: no overlong forms,
+   no surrogates, nothing above U+10FFFF): six.ensure_str(token) raises UnicodeDecodeError on the others *)
+Definition u8cont (b : Z) : bool := (128 <=? b) && (b <=? 191).
+Fixpoint utf8_valid (l : list Z) : bool :=
+  match l with
+  | [] => true
+  | b :: r =>
+      if (0 <=? b) && (b <? 128) then utf8_valid r
+      else if (194 <=? b) && (b <=? 223) then
+        match r with c1 :: r1 => u8cont c1 && utf8_valid r1 | _ => false end
+      else if (224 <=? b) && (b <=? 239) then
+        match r with
+        | c1 :: c2 :: r2 =>
+            (if b =? 224 then (160 <=? c1) && (c1 <=? 191) else if b =? 237 then (128 <=? c1) && (c1 <=? 159) else u8cont c1)
+            && u8cont c2 && utf8_valid r2
+        | _ => false
+        end
+      else if (240 <=? b) && (b <=? 244) then
+        match r with
+        | c1 :: c2 :: c3 :: r3 =>
+            (if b =? 240 then (144 <=? c1) && (c1 <=? 191) else if b =? 244 then (128 <=? c1) && (c1 <=? 143) else u8cont c1)
+            && u8cont c2 && u8cont c3 && utf8_valid r3
+        | _ => false
+        end
+      else false
+  end.
+
 (* accept, self.argConstraint = ms.getXArgConstraint(..); assert accept *)
 Definition au_take (g : gac) (k : option ctr -> austate) : austep :=
   match g with
@@ -568,6 +595,9 @@ Definition au_child (ms : mschema) (st : austate) (w : wobj) : austep :=
   | AuKwName =>
       match w with
       | WStr _ _ bs =>                                               (* STRING or VOCAB, any size *)
+          (* self.argname = six.ensure_str(token): a name that is not UTF-8 -> Violation (try/except in call.py) or, without
+             the handler, a UnicodeDecodeError that escapes dataReceived (connection lost): read from the source *)
+          if negb (utf8_valid bs) then (if au_nontext_name_violation then AuViol else AuAbort) else
           let n := name_code bs in
           let na := match au_numargs st with Some na => na | None => 0 end in
           au_take (getKeywordArgConstraint ms n (firstn (Z.to_nat na) (names ms) ++ map fst (au_kwargs st)))
@@ -659,6 +689,7 @@ Definition enc_kws (kwsb : list (list Z * wobj)) : list wobj :=
 Definition enc_args (pos : list wobj) (kwsb : list (list Z * wobj)) : list wobj :=
   WInt tok_INT (zlen pos) (zlen pos) :: pos ++ enc_kws kwsb.
 Definition code_kws (kwsb : list (list Z * wobj)) : list (Z * wobj) := map (fun p => (name_code (fst p), snd p)) kwsb.
+Definition names_text (kwsb : list (list Z * wobj)) : bool := forallb (fun p => utf8_valid (fst p)) kwsb.
 
 (* an inbound `answer` for a request whose result constraint is oc *)
 Inductive av := Callback (v : obj) | Errback | ConnLost.
